@@ -116,15 +116,53 @@ Qed.
 
 Definition seg2_ok (s : state) (zfo : bool) (sg : seg) : Prop :=
   in_covers zfo 0 (sg_liq sg) (sg_a sg) (sg_b sg) (sg_in sg) /\ Z.rem (sg_in sg) P18 = 0 /\ 0 <= sg_in sg /\
-  b_side_ok s (sg_tick sg) (sg_b sg).
+  b_side_ok s (sg_tick sg) (sg_b sg) /\ (if zfo then sg_b sg <= sg_a sg else sg_a sg <= sg_b sg).
+Definition sum_in (tr : list seg) : Z := fold_right (fun sg acc => sg_in sg + acc) 0 tr.
+Definition sum_fee (tr : list seg) : Z := fold_right (fun sg acc => sg_fee sg + acc) 0 tr.
+
+(* the direction of a step *)
+Lemma step_direction : forall s zfo st nt info rest nts computed, Inv s -> LI s zfo st ((nt, info) :: rest) ->
+  tick_to_sqrt_price nt = Some nts -> 0 < computed ->
+  (computed = nts \/ computed = ss_sqrt st \/ dir_ok zfo (ss_sqrt st) computed) ->
+  if zfo then computed <= ss_sqrt st else ss_sqrt st <= computed.
+Proof.
+  intros s zfo st nt info rest nts computed I [L1 [L2 [L3 L4]]] Snt CP Dir.
+  destruct (iter_ok_head _ _ _ _ _ _ L4) as [Hin [Hb _]]. destruct (stored_tick_ok s nt info I Hin) as [Rn [Bn _]].
+  destruct (L3 nt nts Rn Bn Snt) as [A1 A2]. unfold beyond in Hb.
+  destruct Dir as [D|[D|[D|D]]].
+  - subst computed. destruct zfo; [apply Z.leb_le in Hb; auto|apply Z.ltb_lt in Hb; auto].
+  - subst computed. destruct zfo; lia.
+  - exact D.
+  - lia.
+Qed.
+
+Lemma after_step_fee : forall zfo sc st iter nt info nts computed dspec dcalc fee st' iter',
+  after_step zfo true sc st iter nt info nts computed dspec dcalc fee = Some (st', iter') -> ss_fee st' = ss_fee st + fee.
+Proof.
+  unfold after_step. intros zfo sc st iter nt info nts computed dspec dcalc fee st' iter' H.
+  destruct (update_fee_growth sc st fee) as [st1|] eqn:E1; [|discriminate H]. cbv beta iota in H.
+  assert (F : ss_fee st1 = ss_fee st + fee).
+  { unfold update_fee_growth in E1. destruct (if sc =? P18 then Some fee else dchk (d_mul_truncate fee sc)) as [z|]; [|discriminate E1]. cbv beta iota in E1.
+    destruct (dchk (ss_fee st + fee)) as [tot|] eqn:ET; [|discriminate E1]. cbv beta iota in E1. apply dchk_some in ET. subst tot.
+    destruct (ss_liq st =? 0); [inversion E1; reflexivity|].
+    destruct (dchk (d_quo_truncate z (ss_liq st))) as [z0|]; [|discriminate E1]. cbv beta iota in E1.
+    destruct (dchk (ss_growth st + z0)); [|discriminate E1]. inversion E1; reflexivity. }
+  destruct (dchk (ss_remaining st1 - dspec)) as [rem|]; [|discriminate H]. cbv beta iota in H.
+  destruct (dchk (ss_calculated st1 + dcalc)) as [calc|]; [|discriminate H]. cbv beta iota in H.
+  destruct (nts =? computed).
+  - unfold cross_tick in H. simpl in H. destruct (dchk _); [|discriminate H]. inversion H; subst. simpl. exact F.
+  - destruct (edge_case zfo nts computed); [discriminate H|]. destruct (negb (ss_sqrt st =? computed)).
+    + destruct (calculate_sqrt_price_to_tick computed); [|discriminate H]. inversion H; subst. simpl. exact F.
+    + inversion H; subst. simpl. exact F.
+Qed.
 
 Lemma loop_out_path2 : forall s fuel zfo accum sc limit st iter noprog st' tr, Inv s ->
   sqrt_price_limit zfo = Some limit -> LI s zfo st iter ->
   loop_out_trace fuel zfo accum (p_spread (s_pool s)) sc limit st iter noprog = Some (st', tr) ->
-  Forall (seg2_ok s zfo) tr.
+  Forall (seg2_ok s zfo) tr /\ (accum = true -> ss_fee st' = ss_fee st + sum_fee tr).
 Proof.
   intros s fuel. induction fuel as [|f IH]; intros zfo accum sc limit st iter noprog st' tr I HL L H; simpl in H; [discriminate H|].
-  destruct ((smallest_dec <? ss_remaining st) && negb (ss_sqrt st =? limit)) eqn:Econd; [|inversion H; subst; constructor].
+  destruct ((smallest_dec <? ss_remaining st) && negb (ss_sqrt st =? limit)) eqn:Econd; [|inversion H; subst; split; [constructor|intros _; simpl; lia]].
   apply andb_true_iff in Econd. destruct Econd as [Erem _]. apply Z.ltb_lt in Erem. unfold smallest_dec in Erem.
   destruct iter as [|[nt info] rest]; [discriminate H|].
   destruct (tick_to_sqrt_price nt) as [nts|] eqn:Snt; [|discriminate H]. cbv beta iota in H.
@@ -144,22 +182,25 @@ Proof.
   destruct (compute_out_given_in_ain _ _ _ _ _ _ _ _ _ _ EC) as [xin [EX EAin]].
   destruct (ain_covers zfo (ss_liq st) (ss_sqrt st) computed xin Fl ltac:(destruct L as [_ [X _]]; exact X) CP EX) as [IC [RW NN]].
   rewrite <- EAin in IC, RW, NN.
-  assert (SG : seg2_ok s zfo (mkSeg (ss_liq st) (ss_tick st) (ss_sqrt st) computed ain aout fee)) by (unfold seg2_ok; simpl; split; [exact IC|split; [exact RW|split; [exact NN|exact BS]]]).
+  assert (SG : seg2_ok s zfo (mkSeg (ss_liq st) (ss_tick st) (ss_sqrt st) computed ain aout fee)) by (unfold seg2_ok; simpl; split; [exact IC|split; [exact RW|split; [exact NN|split; [exact BS|exact (step_direction _ _ _ _ _ _ _ _ I L Snt CP Dir)]]]]).
+  assert (FE : accum = true -> ss_fee st1 = ss_fee st + fee) by (intro EAc; subst accum; eapply after_step_fee; exact EA).
   destruct (ain =? 0).
   - destruct (swap_no_progress_limit <=? noprog); [discriminate H|].
     destruct (loop_out_trace f zfo accum (p_spread (s_pool s)) sc limit st1 iter1 (noprog + 1)) as [[st2 tr2]|] eqn:ELp; [|discriminate H].
-    inversion H; subst. constructor; [exact SG|]. eapply IH; eassumption.
+    inversion H; subst. destruct (IH _ _ _ _ _ _ _ _ _ I HL L' ELp) as [IH1 IH2]. split; [constructor; [exact SG|exact IH1]|].
+    intro EAc. simpl. rewrite (IH2 EAc), (FE EAc). lia.
   - destruct (loop_out_trace f zfo accum (p_spread (s_pool s)) sc limit st1 iter1 noprog) as [[st2 tr2]|] eqn:ELp; [|discriminate H].
-    inversion H; subst. constructor; [exact SG|]. eapply IH; eassumption.
+    inversion H; subst. destruct (IH _ _ _ _ _ _ _ _ _ I HL L' ELp) as [IH1 IH2]. split; [constructor; [exact SG|exact IH1]|].
+    intro EAc. simpl. rewrite (IH2 EAc), (FE EAc). lia.
 Qed.
 
 Lemma loop_in_path2 : forall s fuel zfo accum sc limit st iter noprog st' tr, Inv s ->
   sqrt_price_limit zfo = Some limit -> LI s zfo st iter ->
   loop_in_trace fuel zfo accum (p_spread (s_pool s)) sc limit st iter noprog = Some (st', tr) ->
-  Forall (seg2_ok s zfo) tr.
+  Forall (seg2_ok s zfo) tr /\ (accum = true -> ss_fee st' = ss_fee st + sum_fee tr).
 Proof.
   intros s fuel. induction fuel as [|f IH]; intros zfo accum sc limit st iter noprog st' tr I HL L H; simpl in H; [discriminate H|].
-  destruct ((smallest_dec <? ss_remaining st) && negb (ss_sqrt st =? limit)) eqn:Econd; [|inversion H; subst; constructor].
+  destruct ((smallest_dec <? ss_remaining st) && negb (ss_sqrt st =? limit)) eqn:Econd; [|inversion H; subst; split; [constructor|intros _; simpl; lia]].
   apply andb_true_iff in Econd. destruct Econd as [Erem _]. apply Z.ltb_lt in Erem. unfold smallest_dec in Erem.
   destruct iter as [|[nt info] rest]; [discriminate H|].
   destruct (tick_to_sqrt_price nt) as [nts|] eqn:Snt; [|discriminate H]. cbv beta iota in H.
@@ -179,11 +220,14 @@ Proof.
   destruct (compute_in_given_out_ain _ _ _ _ _ _ _ _ _ _ EC) as [xin [EX EAin]].
   destruct (ain_covers zfo (ss_liq st) (ss_sqrt st) computed xin Fl ltac:(destruct L as [_ [X _]]; exact X) CP EX) as [IC [RW NN]].
   rewrite <- EAin in IC, RW, NN.
-  assert (SG : seg2_ok s zfo (mkSeg (ss_liq st) (ss_tick st) (ss_sqrt st) computed ain aout fee)) by (unfold seg2_ok; simpl; split; [exact IC|split; [exact RW|split; [exact NN|exact BS]]]).
+  assert (SG : seg2_ok s zfo (mkSeg (ss_liq st) (ss_tick st) (ss_sqrt st) computed ain aout fee)) by (unfold seg2_ok; simpl; split; [exact IC|split; [exact RW|split; [exact NN|split; [exact BS|exact (step_direction _ _ _ _ _ _ _ _ I L Snt CP Dir)]]]]).
+  assert (FE : accum = true -> ss_fee st1 = ss_fee st + fee) by (intro EAc; subst accum; eapply after_step_fee; exact EA).
   destruct (aout =? 0).
   - destruct (swap_no_progress_limit <=? noprog); [discriminate H|].
     destruct (loop_in_trace f zfo accum (p_spread (s_pool s)) sc limit st1 iter1 (noprog + 1)) as [[st2 tr2]|] eqn:ELp; [|discriminate H].
-    inversion H; subst. constructor; [exact SG|]. eapply IH; eassumption.
+    inversion H; subst. destruct (IH _ _ _ _ _ _ _ _ _ I HL L' ELp) as [IH1 IH2]. split; [constructor; [exact SG|exact IH1]|].
+    intro EAc. simpl. rewrite (IH2 EAc), (FE EAc). lia.
   - destruct (loop_in_trace f zfo accum (p_spread (s_pool s)) sc limit st1 iter1 noprog) as [[st2 tr2]|] eqn:ELp; [|discriminate H].
-    inversion H; subst. constructor; [exact SG|]. eapply IH; eassumption.
+    inversion H; subst. destruct (IH _ _ _ _ _ _ _ _ _ I HL L' ELp) as [IH1 IH2]. split; [constructor; [exact SG|exact IH1]|].
+    intro EAc. simpl. rewrite (IH2 EAc), (FE EAc). lia.
 Qed.
